@@ -291,6 +291,8 @@ def c19_jobs(tier):
         j['harness'] = ['harness/bits.cpp', 'harness/math_nobsr.c']
         j['repo_included'] = ['src/math.c']
     jobs += nob
+    # the integer routines must not depend on the width of a_real: the same sweeps over src/math.c built with single-precision reals
+    jobs += grid_jobs('bits-f32', 'harness/bits.cpp', src, tier, 16, defs=['-DA_SIZE_REAL=4'], extra=['--mathonly', 1])
     # the same sources with the header's inline bodies selected, and one sanitizer shard on a reduced sweep is not needed: the sweeps are pure integer code
     if tier == 'thorough':
         jobs += grid_jobs('bits-inline', 'harness/bits.cpp', src, tier, 16, defs=['-DA_HAVE_INLINE=1'])
@@ -616,6 +618,9 @@ def c20_jobs(tier):
     jobs = [{'name': 'abi-%s' % w, 'build_name': 'abi-%s' % w, 'script': 'abi/check.py', 'harness': [], 'args': ['--width', w, '--tier', tier], 'timeout': 900} for w in ('f64', 'f32')]
     # the C side compiled in the oldest language mode the headers support (a cc-crate build picks up CFLAGS): a_bool is then not _Bool
     jobs.append({'name': 'abi-f64-c90', 'build_name': 'abi-f64-c90', 'script': 'abi/check.py', 'harness': [], 'args': ['--width', 'f64', '--tier', tier, '--cstd', 'c90'], 'timeout': 900})
+    # the binding's cmake build (build.rs, feature "cmake"): the width reaches the C side through the generated configuration header
+    for w in ('f64', 'f32'):
+        jobs.append({'name': 'abi-%s-cmake' % w, 'build_name': 'abi-%s-cmake' % w, 'script': 'abi/check.py', 'harness': [], 'args': ['--width', w, '--tier', tier, '--config', 'cmake'], 'timeout': 900})
     return jobs
 
 
